@@ -50,7 +50,7 @@ def shard_env(shard, nshards):
 
 
 def gen_default(rng, tz):
-    y = rng.choice([1999, 2000, 2003, 2023, 2024, rng.randint(1900, 2100)])
+    y = rng.choice([1999, 2000, 2003, 2023, 2024, rng.randint(1900, 2100), rng.choice([1800, 1900, 2100, 2200])])
     m = rng.choice([1, 2, 3, 5, 8, 10, 12, rng.randint(1, 12)])
     d = min(rng.choice([28, 29, 30, 31, 31, rng.randint(1, 31)]), calendar.monthrange(y, m)[1])
     if rng.random() < .15:
@@ -63,8 +63,8 @@ def gen_default(rng, tz):
 
 def partial_text(rng):
     """-> (label, text, given fields dict, weekday or None)"""
-    y = rng.choice([1999, 2000, 2003, 2023, 2024, rng.randint(1000, 9999)])
-    m = rng.randint(1, 12)
+    y = rng.choice([1999, 2000, 2003, 2023, 2024, rng.randint(1000, 9999), rng.choice([1800, 1900, 2100, 2200])])
+    m = rng.choice([2, rng.randint(1, 12), rng.randint(1, 12)])
     d = rng.randint(1, calendar.monthrange(y, m)[1])
     h, mi, s, us = rng.randint(0, 23), rng.randint(0, 59), rng.randint(0, 59), rng.choice([0, 500000, 123456])
     mon = rng.choice([render_gen.MON[m - 1], render_gen.MONTH[m - 1]])
@@ -161,6 +161,27 @@ def wl_default(ctx, P, tz, rng):
     pt = partial_text(rng)
     label, text, given, wd = pt[:4]
     flags = pt[4] if len(pt) > 4 else {}
+    judge_default(ctx, P, default, label, text, given, wd, flags)
+
+
+def wl_default_century(ctx, P):
+    """directed: February of century years (leap only when divisible by 400) against defaults on day 28-31, the year coming
+    from the text or from the default"""
+    for y in (1700, 1800, 1900, 2000, 2100, 2200, 2400, 2024, 2023):
+        for day in (28, 29, 30, 31):
+            for hour in (0, 23):
+                d1 = D.datetime(2011, 5, day, hour, 59) if day < 31 else D.datetime(2011, 5, 31, hour, 59)
+                judge_default(ctx, P, d1, 'century-month-year', 'Feb %04d' % y, {'month': 2, 'year': y}, None, {})
+                judge_default(ctx, P, d1, 'century-iso-ym', '%04d-02' % y, {'month': 2, 'year': y}, None, {})
+                judge_default(ctx, P, d1, 'century-month-year-hm', 'February %04d 10:30' % y, {'month': 2, 'year': y, 'hour': 10, 'minute': 30}, None, {})
+                d2 = D.datetime(y, 1, day, hour, 59)
+                judge_default(ctx, P, d2, 'century-month', 'Feb', {'month': 2}, None, {})
+                judge_default(ctx, P, d2, 'century-month-hm', 'February 07:15', {'month': 2, 'hour': 7, 'minute': 15}, None, {})
+                ctx.count('default_century_february')
+        judge_default(ctx, P, D.datetime(2024, 2, 29, 12), 'century-year', '%04d' % y, {'year': y}, None, {})
+
+
+def judge_default(ctx, P, default, label, text, given, wd, flags):
     exp = expected_fill(default, given, wd)
     r = call(P.parse, text, default=default, **flags)
     ctx.ev()
@@ -495,6 +516,44 @@ def wl_fuzzy(ctx, P, rng, cur):
         ctx.sample({'sentence': sentence, 'fuzzy': repr(r1[1]), 'skipped': list(skipped)})
 
 
+STRAY = ['120$', '#4711A', '101b', '77x', 'A380', 'x86', '3rd-floor', 'v2', '50%', 'EUR99', '7b', 'No.5']
+
+
+def wl_fuzzy_variants_agree(ctx, P, rng):
+    """fuzzy_with_tokens=True alone means fuzzy: for any sentence - also one with stray numbers glued to other characters,
+    where what the date is may be debatable - it returns the datetime fuzzy=True returns (or fails when that fails), and
+    the same as both options together"""
+    t = rng.choice([x for x in render_gen.TEMPLATES if not x.yy and x.group not in ('hms',)])
+    dt = D.datetime(rng.randint(1990, 2030), rng.randint(1, 12), rng.randint(1, 28), rng.randint(0, 23), rng.randint(0, 59), rng.randint(0, 59))
+    text, exp, off = render_gen.render(t, dt, 3, '.', None)
+    words = [rng.choice(FILLER) for _ in range(rng.randint(1, 4))] + [rng.choice(STRAY) for _ in range(rng.randint(1, 2))]
+    rng.shuffle(words)
+    k = rng.randint(0, len(words))
+    sentence = ' '.join(words[:k] + [text] + words[k:])
+    kw = dict(t.flags)
+    default = D.datetime(2003, 9, 25)
+    r1 = call(P.parse, sentence, fuzzy=True, default=default, **kw)
+    r2 = call(P.parse, sentence, fuzzy_with_tokens=True, default=default, **kw)
+    r3 = call(P.parse, sentence, fuzzy=True, fuzzy_with_tokens=True, default=default, **kw)
+    ctx.ev(3)
+    ctx.count('fuzzy_variant_sentences')
+    ctx.count('fuzzy_variant_' + ('accepted' if r1[0] == 'ok' else 'rejected'))
+    case = {'workload': 'fuzzy-variants', 'sentence': sentence, 'flags': kw}
+    ctx.distinct('fuzzy-variants|%s|%s' % (t.name, r1[0]))
+
+    def brief(r):
+        return repr(r[1]) if r[0] == 'ok' else '%s: %s' % (type(r[1]).__name__, r[1])
+    if r1[0] != r2[0] or r2[0] != r3[0]:
+        ctx.violation('fuzzy-variants-disagree', case, 'fuzzy=True -> %s; fuzzy_with_tokens=True -> %s; both -> %s' % (brief(r1), brief(r2), brief(r3)))
+    elif r1[0] == 'ok':
+        if not (isinstance(r2[1], tuple) and len(r2[1]) == 2 and r2[1][0] == r1[1] and r3[1] == r2[1]):
+            ctx.violation('fuzzy-variants-disagree', case, 'fuzzy=True -> %s; fuzzy_with_tokens=True -> %s; both -> %s' % (brief(r1), brief(r2), brief(r3)))
+        elif not in_order_substrings(r2[1][1], sentence):
+            ctx.violation('skipped-not-ordered-substrings', case, repr(r2[1][1]))
+    elif type(r1[1]) is not type(r2[1]):
+        ctx.violation('fuzzy-variants-disagree', case, 'fuzzy=True -> %s; fuzzy_with_tokens=True -> %s' % (brief(r1), brief(r2)))
+
+
 AMPM_WORDS = ['am', 'pm', 'a', 'p', 'AM', 'PM']
 
 
@@ -620,6 +679,10 @@ def run(ctx):
                 ctx.violation('default-fill', {'workload': 'default', 'text': text, 'default': repr(default), 'expected': repr(exp)}, repr(r[1]))
         wl_tzinfos_ambiguous(ctx, P, tz)
         wl_tz_switch(ctx, P, tz)
+        if ctx.shard == 0:
+            wl_default_century(ctx, P)
+        for _ in range(600 if ctx.tier == 'quick' else 8000):
+            wl_fuzzy_variants_agree(ctx, P, rng)
     finally:
         uninstall()
 
@@ -633,7 +696,7 @@ def floors(agg, tier):
               'zone_callable-offset', 'zone_dict-beats-utc', 'zone_numeric', 'zone_zero', 'zone_utc-name', 'zone_gmt+h', 'zone_name+h',
               'zone_unknown', 'zone_local-std', 'fuzzy_sentences', 'ampm_lookalike_hour>12', 'ampm_lookalike_flag-set',
               'ampm_lookalike_no-hour', 'relation_accepted', 'tz_switch_calls', 'fuzzy_odd_whitespace', 'zone_numeric-paren-name-plain',
-              'zone_numeric-paren-name-plain-colon', 'zone_numeric-paren-name-dict-colon', 'zone_numeric-paren-name-callable-colon'):
+              'zone_numeric-paren-name-plain-colon', 'default_century_february', 'fuzzy_variant_accepted', 'zone_numeric-paren-name-dict-colon', 'zone_numeric-paren-name-callable-colon'):
         if c.get(k, 0) < 40:
             out.append('%s only %d' % (k, c.get(k, 0)))
     for z in ('UTC', 'EST', 'GMT', 'IST'):
